@@ -32,6 +32,9 @@ var OperandTemplates = []string{
 	"this.q = %s; q", "this[%s]", "xs.push(xs); %s", "dd.me = dd; %s", "%s; xs", "[x,2]\n[x,%s]", "return %s", "1 + %s reason",
 	"s8[%s]", "s64[%s]", "s64[%s:%s]", "s8[%s] + s64[%s]", "dd.__proto__ = dd; dd.%s", "dd.__proto__ = {'__proto__': dd}; dd.zz + %s", "pa = {'q': 1}; dd.__proto__ = pa; pa.__proto__ = dd; dd.nope; %s",
 	"xs[%s].%s", "xs.%s", "dd.%s(%s)", "s64.%s", "(%s).len()",
+	"xs.push(xs); ys.push(ys); xs == ys", "dd.me = dd; ee = {'k':1}; ee.me = ee; [dd == ee, dd != ee, %s == dd]", "xs[0] = xs; ys = [1]; ys[0] = ys; xs == ys",
+	"x=[1]; i=0; while i<14 { x=[x,x]; i=i+1 }; y=[1]; i=0; while i<14 { y=[y,y]; i=i+1 }; [x == y, %s]",
+	"^sta-%s", "^sta+%s", "^sta:%s", "^sta*%s:%s", "^st&a=%s", "^st'a 1'+=%s", "^sta%s b%s", "^sta-=%s", "^sta*:%s",
 }
 
 var HostilePrelude = "xs=[1,2,3]; ys=[]; dd={'k':1}; ff = 2.5; &cv = d6 + 1; s8 = '01234567'; s64 = '0123456789012345678901234567890123456789012345678901234567890123'; "
@@ -43,7 +46,7 @@ func Matrix(r *fw.Rand) string {
 	for strings.Contains(src, "%s") {
 		src = strings.Replace(src, "%s", r.Pick(HostileVals), 1)
 	}
-	if r.P(7, 8) {
+	if r.P(7, 8) && !strings.HasPrefix(src, "^st") {
 		src = HostilePrelude + src
 	}
 	return src
